@@ -264,3 +264,40 @@ func unNot(e ast.Expr) (ast.Expr, bool) {
 		e = u.X
 	}
 }
+
+// asIf views a statement as `if cond { body } [else { els }]`: a plain if
+// statement without an init clause, or the equivalent tagless switch with one
+// conditional case (and an optional default).
+func asIf(st ast.Stmt) (cond ast.Expr, body, els []ast.Stmt, ok bool) {
+	switch s := st.(type) {
+	case *ast.IfStmt:
+		if s.Init != nil {
+			return nil, nil, nil, false
+		}
+		switch e := s.Else.(type) {
+		case nil:
+		case *ast.BlockStmt:
+			els = e.List
+		default:
+			els = []ast.Stmt{s.Else}
+		}
+		return s.Cond, s.Body.List, els, true
+	case *ast.SwitchStmt:
+		if s.Init != nil || s.Tag != nil || len(s.Body.List) == 0 || len(s.Body.List) > 2 {
+			return nil, nil, nil, false
+		}
+		first := s.Body.List[0].(*ast.CaseClause)
+		if len(first.List) != 1 {
+			return nil, nil, nil, false
+		}
+		if len(s.Body.List) == 2 {
+			second := s.Body.List[1].(*ast.CaseClause)
+			if second.List != nil {
+				return nil, nil, nil, false
+			}
+			els = second.Body
+		}
+		return first.List[0], first.Body, els, true
+	}
+	return nil, nil, nil, false
+}
